@@ -13,7 +13,23 @@ pub fn document(
     document: dom::XmlDocument,
     context: &mut model::Context,
 ) -> error::Result<model::Value> {
-    eval_expr(expr, document.as_node(), context)
+    context.set_root(Some(document.as_node()));
+    let value = eval_expr(expr, document.as_node(), context);
+    context.set_root(None);
+    value
+}
+
+/// The root of the tree containing the node.
+fn root_node(node: dom::XmlNode, context: &model::Context) -> Vec<dom::XmlNode> {
+    match node {
+        dom::XmlNode::Document(_) => vec![node],
+        _ => node
+            .owner_document()
+            .map(|v| v.as_node())
+            .or_else(|| context.root())
+            .into_iter()
+            .collect(),
+    }
 }
 
 // -----------------------------------------------------------------------------------------------
@@ -211,10 +227,7 @@ fn eval_path_expr(
         expr::PathExpr::Path(filter, location) => {
             eval_filtered_loc_expr(filter, location, node.clone(), context)?.as_value()
         }
-        expr::PathExpr::Root => match node {
-            dom::XmlNode::Document(_) => vec![node].as_value(),
-            _ => vec![node.owner_document().unwrap().as_node()].as_value(),
-        },
+        expr::PathExpr::Root => root_node(node, context).as_value(),
     };
 
     Ok(nodes)
@@ -282,13 +295,12 @@ fn eval_filtered_loc_expr(
                     .collect(),
             }
         } else {
-            let root = match node {
-                dom::XmlNode::Document(_) => node,
-                _ => node.owner_document().unwrap().as_node(),
-            };
+            let root = root_node(node, context);
             match op {
-                expr::LocationPathOperator::Current => vec![root],
-                expr::LocationPathOperator::DescendantOrSelfNode => descendant_and_self(root),
+                expr::LocationPathOperator::Current => root,
+                expr::LocationPathOperator::DescendantOrSelfNode => {
+                    root.into_iter().flat_map(descendant_and_self).collect()
+                }
             }
         }
     } else {
